@@ -13,26 +13,26 @@ import (
 
 // Fn is one translated function (declaration or function literal).
 type Fn struct {
-	ID       int
-	Name     string
-	Obj      *types.Func
-	Decl     *ast.FuncDecl
-	Lit      *ast.FuncLit
-	Parent   *Fn
-	Pkg      *packages.Package
-	Formals  map[string]*types.Var
-	File     string
-	Line     int
-	Exported bool
-	Body     *S
-	Req      []int
-	Post     []int
-	SigWhy   string
-	Relevant bool
-	Emitted  bool
-	Mentions map[int]bool // lock ids (rooted in a formal) that occur in the body, directly or through calls
-	InlineOnly bool       // takes a *LockPile: inlined at call sites
-	nLits    int
+	ID         int
+	Name       string
+	Obj        *types.Func
+	Decl       *ast.FuncDecl
+	Lit        *ast.FuncLit
+	Parent     *Fn
+	Pkg        *packages.Package
+	Formals    map[string]*types.Var
+	File       string
+	Line       int
+	Exported   bool
+	Body       *S
+	Req        []int
+	Post       []int
+	SigWhy     string
+	Relevant   bool
+	Emitted    bool
+	Mentions   map[int]bool // lock ids (rooted in a formal) that occur in the body, directly or through calls
+	InlineOnly bool         // takes a *LockPile: inlined at call sites
+	nLits      int
 
 	aliases map[*types.Var]ast.Expr
 	flagOf  map[*types.Var]int
@@ -318,8 +318,8 @@ func isPileType(ty types.Type) bool {
 func (t *Tr) analyse(f *Fn, body *ast.BlockStmt, info *types.Info) {
 	f.aliases = map[*types.Var]ast.Expr{}
 	f.flagOf = map[*types.Var]int{}
-	assigns := map[*types.Var]int{}   // number of assignments (a definition counts)
-	defined := map[*types.Var]bool{}  // defined inside the body (not a parameter)
+	assigns := map[*types.Var]int{}  // number of assignments (a definition counts)
+	defined := map[*types.Var]bool{} // defined inside the body (not a parameter)
 	rhsOf := map[*types.Var]ast.Expr{}
 	nonConst := map[*types.Var]bool{} // assigned something that is not the constant true/false
 	inLoopAssign := map[*types.Var]bool{}
@@ -869,17 +869,17 @@ func (t *Tr) isLockOrPileCall(c ctx, call *ast.CallExpr) bool {
 }
 
 var syncOps = map[string]string{
-	"(*sync.Mutex).Lock":      "acq",
-	"(*sync.Mutex).Unlock":    "rel",
-	"(*sync.RWMutex).Lock":    "acq",
-	"(*sync.RWMutex).Unlock":  "rel",
-	"(*sync.RWMutex).RLock":   "racq",
-	"(*sync.RWMutex).RUnlock": "rrel",
-	"(sync.Locker).Lock":      "acq",
-	"(sync.Locker).Unlock":    "rel",
-	"(*sync.Mutex).TryLock":   "try",
-	"(*sync.RWMutex).TryLock": "try",
-	"(*sync.RWMutex).TryRLock": "try",
+	"(*sync.Mutex).Lock":                  "acq",
+	"(*sync.Mutex).Unlock":                "rel",
+	"(*sync.RWMutex).Lock":                "acq",
+	"(*sync.RWMutex).Unlock":              "rel",
+	"(*sync.RWMutex).RLock":               "racq",
+	"(*sync.RWMutex).RUnlock":             "rrel",
+	"(sync.Locker).Lock":                  "acq",
+	"(sync.Locker).Unlock":                "rel",
+	"(*sync.Mutex).TryLock":               "try",
+	"(*sync.RWMutex).TryLock":             "try",
+	"(*sync.RWMutex).TryRLock":            "try",
 	"(" + pilePkg + ".TryLocker).TryLock": "try",
 	"(" + pilePkg + ".TryLocker).Lock":    "acq",
 	"(" + pilePkg + ".TryLocker).Unlock":  "rel",
@@ -907,7 +907,9 @@ func (t *Tr) call(c ctx, call *ast.CallExpr, isDefer bool) *S {
 	}
 	fn := calleeOf(info, call)
 	if fn == nil {
-		return skipS // call through a function value or a conversion: erased
+		// call through a function value (or a conversion): the callee is unknown and
+		// erased, but closures passed to it may be invoked during the call
+		return t.callbacks(c, call)
 	}
 	full := fn.FullName()
 	if op, ok := syncOps[full]; ok {
@@ -961,12 +963,38 @@ func (t *Tr) call(c ctx, call *ast.CallExpr, isDefer bool) *S {
 				for i := len(impls) - 1; i >= 0; i-- {
 					alts = choice(t.line(call.Pos()), t.callTo(c, impls[i], fun, call), alts)
 				}
-				return alts
+				// implementations outside the translated files may invoke closure arguments
+				return seq(t.callbacks(c, call), alts)
 			}
 		}
-		return skipS // not in the translated set: erased
+		// A concrete function or method outside the translated files (errgroup.Group.Go,
+		// sort.Slice, …): erased; its closure arguments are translated as functions of
+		// their own (they may run on another goroutine).
+		return skipS
 	}
 	return t.callTo(c, g, fun, call)
+}
+
+// callbacks: a function literal passed as an argument to a callee whose body is
+// not translated (function value, interface method, other package) may be invoked
+// synchronously during that call. Rendered as "may call it, or not", so that
+// locks taken by the callback while the caller's locks are held are seen by the
+// checker and by the acquired-while-holding relation (e.g. a ChildFilter invoked
+// under a directory lock whose `remove` closure re-enters the directory).
+func (t *Tr) callbacks(c ctx, call *ast.CallExpr) *S {
+	if tv, ok := c.pkg.TypesInfo.Types[call.Fun]; ok && tv.IsType() {
+		return skipS // conversion
+	}
+	out := skipS
+	for i := len(call.Args) - 1; i >= 0; i-- {
+		if lit, ok := ast.Unparen(call.Args[i]).(*ast.FuncLit); ok {
+			if g := t.byLit[lit]; g != nil {
+				cb := &S{K: "call", Tag: t.line(lit.Pos()), Call: &CallSite{Callee: g, Actual: map[string]string{}}}
+				out = seq(choice(t.line(lit.Pos()), cb, skipS), out)
+			}
+		}
+	}
+	return out
 }
 
 // implementations returns the translated methods named `name` whose receiver
